@@ -87,6 +87,7 @@ stats! {
     bulk_longer_than_n,
     bulk_repeat_after_full,
     bulk_overflow,
+    bulk_nonfused_sources,
     liar_lies,
     liar_mutation_after_lie,
     fault_fired,
